@@ -1186,3 +1186,213 @@ Proof.
   assert (I : Inv (state_of_post p)) by (split; [apply books_reflects; assumption|exact Hf]).
   apply (step_inv _ _ _ _ Hs Hok I).
 Qed.
+(* ---------------------------------------------------------------- burns inside the backing invariant *)
+Definition denoms (ts : list token) : list Z := map t_denom ts.
+Lemma add_token_denoms : forall ts d x, denoms (add_token ts d x) = denoms ts.
+Proof.
+  induction ts as [|t r IH]; intros d x; cbn [add_token]; [reflexivity|].
+  destruct (t_denom t =? d); cbn [denoms map with_amount t_denom]; [reflexivity|]. f_equal. apply IH.
+Qed.
+Lemma inc_tokens_denoms : forall cs ts ts', inc_tokens ts cs = Ok ts' -> denoms ts' = denoms ts.
+Proof.
+  induction cs as [|[e y] r IH]; cbn [inc_tokens]; intros ts ts' H; [injection H as <-; reflexivity|].
+  destruct (find_token ts e); [|discriminate]. rewrite (IH _ _ H). apply add_token_denoms.
+Qed.
+Lemma dec_tokens_denoms : forall cs ts ts', dec_tokens ts cs = Ok ts' -> denoms ts' = denoms ts.
+Proof.
+  induction cs as [|[e y] r IH]; cbn [dec_tokens]; intros ts ts' H; [injection H as <-; reflexivity|].
+  destruct (find_token ts e); [|discriminate]. destruct (t_amount t - y <? 0); [discriminate|].
+  rewrite (IH _ _ H). apply add_token_denoms.
+Qed.
+Lemma swap_pairs_denoms : forall ps b now a acc acc', swap_pairs b now a acc ps = Ok acc' -> denoms (a_ts acc') = denoms (a_ts acc).
+Proof.
+  induction ps as [|p r IH]; cbn [swap_pairs]; intros b now a acc acc' H; [injection H as <-; reflexivity|].
+  destruct (swap_pair b now a acc p) as [acc1| |] eqn:E; cbn [bind] in H; try discriminate.
+  rewrite (IH _ _ _ _ _ H). destruct p as [[din xin] dout]. unfold swap_pair in E. inv_ok E. injection E as <-. cbn [a_ts].
+  rewrite !add_token_denoms. reflexivity.
+Qed.
+Lemma has_denom_in : forall ts d, has_denom ts d = true <-> In d (denoms ts).
+Proof.
+  induction ts as [|t r IH]; intros d; cbn [has_denom denoms map In]; [split; [discriminate|tauto]|].
+  rewrite Bool.orb_true_iff, IH. split; intros [H|H]; [left; lia|right; exact H|left; lia|right; exact H].
+Qed.
+Lemma edit_tokens_nodup : forall old new seen ts', edit_tokens old seen new = Ok ts' ->
+  NoDup (denoms ts') /\ forall d, In d (denoms ts') -> has_denom seen d = false.
+Proof.
+  induction new as [|t r IH]; cbn [edit_tokens]; intros seen ts' H; [injection H as <-; split; [constructor|intros d []]|].
+  destruct (t_weight t =? 0); [discriminate|]. destruct (has_denom seen (t_denom t)) eqn:S; [discriminate|].
+  destruct (edit_tokens old (t :: seen) r) as [rest| |] eqn:E; cbn [bind] in H; try discriminate. injection H as <-.
+  destruct (IH _ _ E) as [N A]. cbn [denoms map with_amount t_denom]. split.
+  - constructor; [|exact N]. intros I. specialize (A _ I). cbn [has_denom] in A. rewrite Z.eqb_refl in A. discriminate.
+  - intros d [<-|I]; [exact S|]. specialize (A _ I). cbn [has_denom] in A. apply Bool.orb_false_iff in A. apply A.
+Qed.
+Lemma nodup_wof : forall ts t, NoDup (denoms ts) -> In t ts -> wof ts (t_denom t) = Some (t_weight t).
+Proof.
+  unfold wof. induction ts as [|u r IH]; intros t N I; [destruct I|]. cbn [find_token]. inversion N as [|? ? Hn Nr]; subst.
+  destruct I as [<-|I]; [rewrite Z.eqb_refl; reflexivity|].
+  destruct (t_denom u =? t_denom t) eqn:Q; [|apply IH; assumption].
+  exfalso. apply Hn. assert (t_denom u = t_denom t) by lia. rewrite H. apply in_map. exact I.
+Qed.
+
+Lemma wvalue_cons : forall ts c cs, wvalue ts (c :: cs) = match wof ts (fst c) with Some w => snd c * w | None => 0 end + wvalue ts cs.
+Proof. reflexivity. Qed.
+Lemma wvalue_coins_add : forall ts cs d x, wvalue ts (coins_add cs d x) = wvalue ts cs + match wof ts d with Some w => x * w | None => 0 end.
+Proof.
+  intros ts. induction cs as [|[e y] r IH]; intros d x; cbn [coins_add].
+  - destruct (x =? 0) eqn:X; [assert (x = 0) by lia; subst; destruct (wof ts d); lia|]. rewrite wvalue_cons. cbn [fst snd]. unfold wvalue. simpl. lia.
+  - destruct (x =? 0) eqn:X; [assert (x = 0) by lia; subst; destruct (wof ts d); lia|].
+    destruct (d <? e) eqn:L; [rewrite !wvalue_cons; cbn [fst snd]; lia|].
+    destruct (d =? e) eqn:Q.
+    + assert (d = e) by lia. subst e. destruct (y + x =? 0) eqn:Z0; rewrite ?wvalue_cons; cbn [fst snd]; destruct (wof ts d); nia.
+    + rewrite !wvalue_cons, IH. cbn [fst snd]. lia.
+Qed.
+Lemma dec_tokens_value : forall cs ts ts', dec_tokens ts cs = Ok ts' -> value ts' = value ts - wvalue ts cs.
+Proof.
+  induction cs as [|[e y] r IH]; cbn [dec_tokens]; intros ts ts' H.
+  - injection H as <-. unfold wvalue. simpl. lia.
+  - destruct (find_token ts e) eqn:F; [|discriminate]. destruct (t_amount t - y <? 0); [discriminate|].
+    rewrite (IH _ _ H), (add_token_value _ _ _ _ F), (wvalue_ext ts _ r), wvalue_cons by (intros; apply add_token_wof).
+    cbn [fst snd]. unfold wof. rewrite F. cbn [option_map]. unfold dec in *. lia.
+Qed.
+(* what a burn takes out is worth at most portion times the reserves *)
+Lemma withdraw_coins_value : forall ts sub p outs, withdraw_coins sub p = Ok outs -> 0 <= p ->
+  (forall t, In t sub -> wof ts (t_denom t) = Some (t_weight t) /\ 0 <= t_weight t /\ 0 <= t_amount t) ->
+  0 <= wvalue ts outs /\ wvalue ts outs * PREC <= value sub * p.
+Proof.
+  intros ts. induction sub as [|t r IH]; cbn [withdraw_coins]; intros p outs H Hp Hs.
+  - injection H as <-. unfold wvalue, value. simpl. lia.
+  - destruct (withdraw_coins r p) as [rest| |] eqn:W; cbn [bind] in H; try discriminate.
+    destruct (IH _ _ W Hp) as [I0 I1]; [intros u Hu; apply Hs; right; exact Hu|].
+    destruct (Hs t (or_introl eq_refl)) as (Hw & W0 & A0). rewrite value_cons.
+    assert (P0 : 0 <= t_weight t * t_amount t * p) by (unfold dec in *; apply Z.mul_nonneg_nonneg; [apply Z.mul_nonneg_nonneg|]; lia).
+    destruct (t_wd t); cbn [negb] in H.
+    + destruct (dmul (dec_of_int (t_amount t)) p) as [w| |] eqn:M; cbn [bind] in H; try discriminate.
+      apply dmul_int_l in M. injection H as <-.
+      assert (0 <= w) by (unfold dec in *; subst w; apply Z.mul_nonneg_nonneg; lia).
+      pose proof (chop_trunc_bounds w H) as B. pose proof (chop_trunc_nonneg w H) as B0. unfold trunc_int.
+      destruct (0 <? chop_trunc w) eqn:P.
+      * rewrite wvalue_coins_add, Hw. unfold dec in *. subst w. split; [nia|].
+        assert (chop_trunc (t_amount t * p) * t_weight t * PREC <= t_weight t * t_amount t * p) by nia. nia.
+      * unfold dec in *. split; [lia|nia].
+    + injection H as <-. unfold dec in *. split; [lia|nia].
+Qed.
+
+Definition burn_slack (s : state) : Z := value (b_tokens (s_bk s)) / (2 * PREC) + 1.
+
+Theorem burn_keeps_backing_repaired : forall v s now a d x s', v_burn_pre v = true -> burn v s now a d x = Ok s' ->
+  NoDup (denoms (b_tokens (s_bk s))) -> weights_all_pos (b_tokens (s_bk s)) -> reserves_nonneg (b_tokens (s_bk s)) ->
+  0 < s_supply s -> x <= s_supply s ->
+  gap s' <= Z.max (gap s) 0 + burn_slack s.
+Proof.
+  intros v s now a d x s' Hv H Nd Wp Rn S0 Hx. unfold burn in H. rewrite Hv in H. inv_ok H. injection H as <-.
+  unfold gap, burn_slack. cbn [s_supply s_bk b_tokens set_amount set_tokens].
+  set (ts := b_tokens (s_bk s)) in *. set (S := s_supply s) in *. set (V := value ts).
+  pose proof PREC_pos as HP.
+  apply dquo_bound in E; unfold dec_of_int in *; try nia. destruct E as [P0 P1].
+  assert (P2 : 2 * a0 * S <= 2 * x * PREC + S) by nia.
+  destruct (withdraw_coins_value ts ts a0 a1 E0 P0) as [D0 D1].
+  { intros t Ht. split; [apply nodup_wof; assumption|]. split; [specialize (Wp t Ht); lia|apply Rn; exact Ht]. }
+  rewrite (dec_tokens_value _ _ _ E2). fold V. set (DV := wvalue ts a1) in *.
+  assert (V0 : 0 <= V) by (apply value_nonneg; assumption).
+  assert (K : DV * (2 * S * PREC) <= 2 * V * x * PREC + V * S).
+  { assert (K1 : DV * PREC * (2 * S) <= V * a0 * (2 * S)) by (apply Z.mul_le_mono_nonneg_r; lia).
+    assert (K2 : V * (2 * a0 * S) <= V * (2 * x * PREC + S)) by (apply Z.mul_le_mono_nonneg_l; lia).
+    clearbody DV V S. clear - K1 K2. lia. }
+  pose proof (Z.div_mod V (2 * PREC) ltac:(lia)) as DM. pose proof (Z.mod_pos_bound V (2 * PREC) ltac:(lia)) as MB.
+  set (q := V / (2 * PREC)) in *. set (m := V mod (2 * PREC)) in *.
+  assert (X0 : 0 < x) by lia.
+  clearbody DV V S q m. clear - K DM MB HP S0 Hx X0 V0 D0.
+  assert (T : 0 < 2 * S * PREC) by nia.
+  destruct (Z_le_gt_dec (S * PREC) V) as [C|C].
+  - rewrite Z.max_r by lia.
+    assert (G : ((S - x) * PREC - (V - DV)) * (2 * S * PREC) <= (q + 1) * (2 * S * PREC)).
+    { assert (0 <= (V - S * PREC) * (S - x)) by (apply Z.mul_nonneg_nonneg; lia). nia. }
+    apply Z.mul_le_mono_pos_r in G; [lia|exact T].
+  - rewrite Z.max_l by lia.
+    assert (G : ((S - x) * PREC - (V - DV)) * (2 * S * PREC) <= (S * PREC - V + (q + 1)) * (2 * S * PREC)).
+    { assert (0 <= (S * PREC - V) * x) by (apply Z.mul_nonneg_nonneg; lia). nia. }
+    apply Z.mul_le_mono_pos_r in G; [lia|exact T].
+Qed.
+Lemma dec_tokens_weights : forall cs ts ts', dec_tokens ts cs = Ok ts' -> weights_all_pos ts -> weights_all_pos ts'.
+Proof.
+  induction cs as [|[e y] r IH]; cbn [dec_tokens]; intros ts ts' H W; [injection H as <-; exact W|].
+  destruct (find_token ts e); [|discriminate]. destruct (t_amount t - y <? 0); [discriminate|].
+  apply (IH _ _ H). apply add_token_weights. exact W.
+Qed.
+
+(* ---------------------------------------------------------------- backing over ALL histories (repaired burn) *)
+Definition InvF (s : state) : Prop := InvB s /\ NoDup (denoms (b_tokens (s_bk s))).
+(* every operation of the alphabet except the unreachable weight slash; burns where the portion is
+   taken of the supply before the burn *)
+Definition op_okF (v : variant) (o : op) : Prop :=
+  match o with
+  | OBurn _ _ _ _ => v_burn_pre v = true
+  | OSlashW _ _ => False
+  | OEdit new => fee_ok new /\ weights_all_pos (b_tokens new)
+  | OUpsertHook se => se = false \/ v_upsert_skip v = true
+  | _ => True
+  end.
+(* the bank never lets an account hold more of a denomination than its supply: a burn of x finds x <= supply *)
+Definition burn_guard (s : state) (o : op) : Prop :=
+  match o with OBurn _ _ _ x => x <= s_supply s | _ => True end.
+Fixpoint burns_guarded (v : variant) (s : state) (ops : list op) : Prop :=
+  match ops with [] => True | o :: r => burn_guard s o /\ burns_guarded v (apply v s o) r end.
+Definition op_slackF (s : state) (o : op) : Z :=
+  match o with OBurn _ _ _ _ => burn_slack s | _ => op_slack s o end.
+Fixpoint run_slackF (v : variant) (s : state) (ops : list op) : Z :=
+  match ops with [] => 0 | o :: r => op_slackF s o + run_slackF v (apply v s o) r end.
+
+Lemma op_slackF_nonneg : forall s o, InvF s -> 0 <= op_slackF s o.
+Proof.
+  intros s o [I _]. destruct o; cbn [op_slackF]; try (apply op_slack_nonneg; exact I).
+  unfold burn_slack. destruct I as (_ & W & N & _). pose proof (value_nonneg _ W N). pose proof PREC_pos.
+  assert (0 <= value (b_tokens (s_bk s)) / (2 * PREC)) by (apply Z.div_pos; lia). lia.
+Qed.
+
+Lemma step_full : forall v s o s', step v s o = Ok s' -> op_okF v o -> burn_guard s o -> InvF s ->
+  InvF s' /\ gap s' <= Z.max (gap s) 0 + op_slackF s o.
+Proof.
+  intros v s o s' H Hok Hg [I Nd].
+  destruct o; cbn [op_okF burn_guard op_slackF] in *;
+    try (destruct (step_backed v s _ s' H ltac:(cbn [op_okB]; auto) I) as [I' G]; split; [split; [exact I'|]|exact G]).
+  - cbn [step] in H. unfold mint in H. inv_ok H. injection H as <-. cbn [s_bk b_tokens set_amount set_tokens].
+    rewrite (inc_tokens_denoms _ _ _ E0). exact Nd.
+  - (* burn *) cbn [step] in H. destruct I as (F & W & N & S0).
+    assert (X0 : 0 < x) by (unfold burn in H; inv_ok H; lia).
+    pose proof (burn_keeps_backing_repaired v s now a d x s' Hok H Nd W N ltac:(lia) Hg) as G.
+    split; [|exact G]. unfold burn in H. inv_ok H. injection H as <-. unfold InvF, InvB.
+    cbn [s_bk s_supply b_tokens set_amount set_tokens].
+    split; [split; [exact F|split; [eapply dec_tokens_weights; eauto|split; [eapply dec_tokens_nonneg; eauto|lia]]]|].
+    rewrite (dec_tokens_denoms _ _ _ E2). exact Nd.
+  - cbn [step] in H. unfold swap in H. inv_ok H. injection H as <-. cbn [s_bk b_tokens set_surplus set_tokens].
+    rewrite (swap_pairs_denoms _ _ _ _ _ _ E0). exact Nd.
+  - cbn [step] in H. unfold edit in H. inv_ok H. injection H as <-. destruct (edit_tokens_nodup _ _ _ _ E) as [Nn _].
+    destruct (v_edit_keep v); cbn [s_bk b_tokens set_amount set_surplus set_tokens]; exact Nn.
+  - cbn [step] in H. destruct (negb allowed); [discriminate|]. injection H as <-. exact Nd.
+  - cbn [step] in H. injection H as <-. exact Nd.
+  - cbn [step] in H. injection H as <-. exact Nd.
+  - contradiction.
+  - cbn [step] in H. injection H as <-. exact Nd.
+  - cbn [step] in H. assert (K : stake_enabled && negb (v_upsert_skip v) = false) by (destruct Hok as [->| ->]; [reflexivity|destruct stake_enabled; reflexivity]).
+    rewrite K in H. injection H as <-. exact Nd.
+  - destruct (withdraw_step v s ids target rewards s' H) as (s1 & W1 & Eb & _).
+    destruct (withdraw_ids_frame _ _ _ _ W1) as (_ & Ft & _). rewrite Eb, Ft. exact Nd.
+  - cbn [step] in H. unfold create in H. inv_ok H. injection H as <-. exact Nd.
+  - cbn [step] in H. injection H as <-. exact Nd.
+Qed.
+
+(* "the supply never exceeds the reserves valued at the basket weights": over EVERY history of mints,
+   burns, multi-pair swaps, edit / create / withdraw-surplus proposals, switches, hooks, end blocks and
+   genesis round trips the excess of supply * 10^18 over sum(weight_i * reserve_i) stays below its
+   starting value (0 for a backed basket) plus the rounding slack of the swaps and burns *)
+Theorem backed_over_all_histories : forall v ops s, Forall (op_okF v) ops -> burns_guarded v s ops -> InvF s ->
+  InvF (run v s ops) /\ gap (run v s ops) <= Z.max (gap s) 0 + run_slackF v s ops.
+Proof.
+  intros v ops. induction ops as [|o r IH]; intros s Hok Hg I.
+  - cbn [run fold_left run_slackF]. split; [exact I|lia].
+  - inversion Hok as [|? ? H1 H2]; subst. destruct Hg as [G1 G2]. pose proof (op_slackF_nonneg s o I) as SN.
+    change (run v s (o :: r)) with (run v (apply v s o) r). cbn [run_slackF].
+    assert (A : InvF (apply v s o) /\ gap (apply v s o) <= Z.max (gap s) 0 + op_slackF s o).
+    { unfold apply. destruct (step v s o) as [s'| |] eqn:E; [eapply step_full; eauto|split; [exact I|lia]|split; [exact I|lia]]. }
+    destruct A as [I' G]. destruct (IH _ H2 G2 I') as [I'' G']. split; [exact I''|lia].
+Qed.
